@@ -296,7 +296,21 @@ fn dec_inp(s: &str) -> Inp {
 }
 
 /// Replay of a history: paint, call the prefix inputs, then the last one; compare with a fresh thread.
+pub fn c16_one(rest: &[String]) -> ! {
+    let i = dec_inp(&rest[0]);
+    println!("BITS {:x} {:x}", base_bits::<f32>(&i), base_bits::<f64>(&i));
+    std::process::exit(0)
+}
+
 pub fn replay_c16(rest: &[String]) -> ! {
+    if rest[0] == "process" {
+        // the whole exploration is the history; re-run it and report whether any process-state dependence shows
+        let a = Args { prop: "c16".into(), thorough: false, seed: 0, hard: None, replay: None, rest: vec![] };
+        let (st, _) = c16(&a);
+        let n = st.violations.iter().filter(|v| v.kind == "history-dependence").count();
+        println!("REPLAY cfg={} process-state dependence: {}", real::cfg_name(), if n > 0 { "some call differs from the one-call-process result" } else { "none" });
+        std::process::exit(if n == 0 { 0 } else { 1 })
+    }
     if rest[0] == "hammer" {
         // re-run the whole check's concurrent part: a race is only reproduced statistically
         let a = Args { prop: "c16".into(), thorough: false, seed: 0, hard: None, replay: None, rest: vec![] };
@@ -361,10 +375,65 @@ pub fn c16(a: &Args) -> (Stats, String) {
     let base = std::sync::Arc::new(alphabet);
     let nb = base.len();
     let mut reps: Vec<String> = Vec::new();
-    // sequential reference results, each on a fresh thread
-    let refs: Vec<(u64, u64)> = base.iter().map(fresh_thread_bits).collect();
-    let refs = std::sync::Arc::new(refs);
+    // reference results: each input parsed in a process of its own (`mlx c16-one`), so that state that
+    // survives between calls in a process (a static cache, a scratch static) cannot leak into the reference;
+    // under the slow monitors (no process spawning) each on a fresh thread
     let mut st = Stats::default();
+    let refs: Vec<(u64, u64)> = if small {
+        base.iter().map(fresh_thread_bits).collect()
+    } else {
+        let exe = std::env::current_exe().expect("current_exe");
+        let out: Vec<Option<(u64, u64)>> = std::thread::scope(|sc| {
+            let hs: Vec<_> = base
+                .chunks((nb + 15) / 16)
+                .map(|chunk| {
+                    let exe = exe.clone();
+                    sc.spawn(move || {
+                        chunk
+                            .iter()
+                            .map(|i| {
+                                let o = std::process::Command::new(&exe).arg("c16-one").arg(enc_inp(i)).output().ok()?;
+                                let t = String::from_utf8_lossy(&o.stdout).to_string();
+                                let mut it = t.split_whitespace();
+                                if it.next()? != "BITS" {
+                                    return None;
+                                }
+                                Some((u64::from_str_radix(it.next()?, 16).ok()?, u64::from_str_radix(it.next()?, 16).ok()?))
+                            })
+                            .collect::<Vec<_>>()
+                    })
+                })
+                .collect();
+            hs.into_iter().flat_map(|h| h.join().unwrap()).collect()
+        });
+        let mut v = Vec::new();
+        for (k, o) in out.into_iter().enumerate() {
+            match o {
+                Some(b) => v.push(b),
+                None => {
+                    st.machinery(format!("reference process failed for {}", show(&base[k])));
+                    v.push(fresh_thread_bits(&base[k]));
+                }
+            }
+        }
+        // the same inputs on fresh threads of this (by now well used) process must agree with the one-call processes
+        for (k, i) in base.iter().enumerate() {
+            let got = fresh_thread_bits(i);
+            st.calls += 2;
+            if got != v[k] {
+                st.violation(api_violation(
+                    "history-dependence",
+                    "-",
+                    format!("{} after the earlier calls of this process (fresh thread)", show(i)),
+                    format!("{:x?}", got),
+                    format!("{:x?} (the same input in a process of its own)", v[k]),
+                    vec!["replay-c16".into(), "process".into(), enc_inp(i)],
+                ));
+            }
+        }
+        v
+    };
+    let refs = std::sync::Arc::new(refs);
 
     // 1 + 2: iterator shapes and addresses
     let t = Timer::new();
